@@ -33,6 +33,9 @@ fn main() {
         "arith-record" => xv::arith::cmd_record(rest),
         "coll-replay" => xv::coll::cmd_replay(rest),
         "tags-record" => xv::tags::cmd_record(rest),
+        "lex-replay" => xv::lexrep::cmd_replay(rest),
+        "print-replay" => xv::lexrep::cmd_print_replay(rest),
+        "lex-fuzz" => xv::lexrep::cmd_fuzz(rest),
         other => {
             eprintln!("unknown subcommand {}", other);
             2
